@@ -28,3 +28,8 @@ claim('C13', 'exploration',
       'Trusted: pysam get_aligned_pairs / MD parsing. Reads carry correct MD tags and read1/read2 flags; fragments of a molecule share cell, UMI and R1 orientation.',
       'property-based testing (Hypothesis) against a brute-force reference vote + metamorphic relations (permutation, duplication)',
       'DESIGN.md section 4, C13')
+claim('C14', 'exploration',
+      'Hypothesis-generated groups of TAPS molecules (plain / NlaIII / scCHIC classes, both strands, both TAPS strand conventions, inward / overlapping / dove-tailed / single-end fragments, N bases and contig-end contexts, two contigs sharing one TAPS instance) whose methylation_call_dict, XM strings and count tags after __finalise__ are compared with an independent caller written from the documented context table.',
+      'Trusted: pysam FastaFile.fetch, get_aligned_pairs, MD parsing. Correct MD tags; NlaIII motif checking disabled (C09 covers it).',
+      'property-based testing (Hypothesis) against an independent reference methylation caller',
+      'DESIGN.md section 4, C14')
